@@ -62,17 +62,31 @@ theorem quoted_roundtrip_lua51 (v : List UInt8) (H : hasUnicodeEscape v = false)
     decodeLua51 (writeQuoted v) = some v :=
   decodeLiteral_writeQuoted .lua51 true v (Or.inr H)
 
-/-- Lua 5.1 reads the literal back as `v` when no `\u{…}` is emitted and the level-0
-long-bracket form does not contain `[[` (which stock Lua 5.1 rejects as "nesting of [[...]] is
-deprecated"). `lua51Safe` is decidable. -/
+/-- `lua51_roundtrip`: Lua 5.1 (stock build, `LUA_COMPAT_LSTR = 1` included) reads the literal
+back as `v` whenever no `\u{…}` escape is needed — the one exception the property allows.
+(Since the fix of F14b a value containing `[[` is never written as a level-0 long string.) -/
 theorem lua51_roundtrip (v : List UInt8) (H : lua51Safe v = true) :
     decodeLua51 (writeString v) = some v := by
-  simp only [lua51Safe, Bool.and_eq_true, Bool.not_eq_true'] at H
-  obtain ⟨hu, hn⟩ := H
+  have hu : hasUnicodeEscape v = false := by simpa [lua51Safe] using H
   refine decodeLiteral_writeString .lua51 true v (Or.inr hu) ?_
-  intro _ _ huse hlvl
+  intro _ _ _ hlvl
   rw [hasNestedOpen_eq]
-  simpa [nestedOpen51, huse, hlvl] using hn
+  cases hc : containsSub [91, 91] v with
+  | false => rfl
+  | true =>
+    have := longLevel_pos_of_nested v hc
+    omega
+
+/-- the F14b witness `[[` + 62 × `x` (regression): written at level 1 now -/
+def f14bWitness : List UInt8 := [91, 91] ++ List.replicate 62 120
+example : longLevel f14bWitness = 1 := by decide +kernel
+example : decodeLua51 (writeString f14bWitness) = some f14bWitness :=
+  lua51_roundtrip _ (by
+    have : hasUnicodeEscape f14bWitness = false := by
+      have h := fromUtf8_ascii f14bWitness (by decide +kernel)
+      simp only [hasUnicodeEscape, h]
+      decide +kernel
+    simp [lua51Safe, this])
 
 /-- By the grammar of the Lua 5.1 manual alone (a build without `LUA_COMPAT_LSTR`) the `[[`
 restriction disappears: only `\u{…}` remains excluded. So F14b is a defect with respect to the
@@ -113,7 +127,7 @@ example : lua51Safe [27, 48, 39, 34, 92, 0xff] = true := by
               · simp at hmem
                 rcases hmem with h | h | h | h <;> (have := congrArg UInt8.toNat h; simp at this; omega))
       · exact absurd h (by decide)
-  simp [lua51Safe, h2, nestedOpen51, usesLongBracket, h1]
+  simp [lua51Safe, h2]
 
 /-- Interpolated-string segments: the text `write_interpolated_string_segment` produces,
 followed by a segment terminator (`` ` `` or `{`) and anything else, is read back by Luau as
